@@ -179,4 +179,20 @@ where sizeList : List SConn → Nat
   | [] => 0
   | p :: ps => p.size + sizeList ps
 
+/-! ### renaming signals (`update_ref_deps`: a reference inside a slice / concatenation is replaced by what it resolved to) -/
+
+mutual
+/-- replace every signal name in a connectable (widths stay) — in particular: the pseudo-signal that stands for a reference
+    to a port by the signal that port was resolved to (`update_ref_deps`) -/
+def SConn.rename (ρ : String → String) : SConn → SConn
+  | .sig n w => .sig (ρ n) w
+  | .slice p idx => .slice (p.rename ρ) idx
+  | .concat ps => .concat (renameList ρ ps)
+def renameList (ρ : String → String) : List SConn → List SConn
+  | [] => []
+  | p :: ps => p.rename ρ :: renameList ρ ps
+end
+
+def renameBit (ρ : String → String) (b : Bit) : Bit := (ρ b.1, b.2)
+
 end Hdl21
